@@ -21,6 +21,7 @@ CLAUSES = (
     'job-submission commands are refused once stopping (in put_command and '
     'in process); a timed-out process is killed and exits once; the exit '
     'routine calls callback_255 or else callback, and exactly one of them. '
+    'the stopping flag is read after the reap phase of process(). '
     'Not decided: timing of polls and kills.')
 
 SP = 'subprocpool'
@@ -144,6 +145,15 @@ def check(c):
          'running entries', len(upd) == 1 and norm(upd[0].value) ==
          'runnings', c.where(pr.node, pr), '')
     # ---- stopping refusal
+    # the stopping flag used by the launch loop is read after the reap phase
+    # (a callback run while reaping may be what requests the stop)
+    reads = c.find(pr, 'self._is_stopping()')
+    c.floor('C42.stopping', 'read of the stopping flag in process()',
+            len(reads), 1)
+    for n in reads:
+        c.pre('C42.stopping', pr, n, lambda s: isinstance(s, ast.Assign)
+              and norm(s.targets[0]).startswith('self.runnings'),
+              'the reap phase (self.runnings[:] = ...)')
     ref_p = [n for _f, n in exits if _f is pr and n.func.attr ==
              '_run_command_exit']
     c.floor('C42.stopping', 'refusal in process()', len(ref_p), 1)
@@ -212,6 +222,12 @@ def check(c):
 
 
 VARIANTS = [
+    ('stopping-read-before-reaping', 'cylc/flow/subprocpool.py',
+     '''        # Handle child processes that are done
+        runnings = []''',
+     '''        stopping = self._is_stopping()
+        # Handle child processes that are done
+        runnings = []''', 'C42.stopping'),
     ('oversize', 'cylc/flow/subprocpool.py',
      '        while self.queuings and len(self.runnings) < self.size:',
      '        while self.queuings and len(self.runnings) <= self.size:',
